@@ -214,6 +214,22 @@ def lean_phase(prop_id, modules, kernels=(), tier="quick"):
         st.log += out
         if rc != 0:
             raise InfraError("driver build failed:\n" + out[-4000:])
+        # translator validation: generated kernel vs the real method on an integer box
+        st.kernel_validation = None
+        if kernels:
+            import kernel_validate
+            try:
+                n_eval, bad = kernel_validate.validate(set(kernels))
+            except InfraError:
+                raise
+            except Exception as e:      # the real method could not even be called: the source changed shape
+                n_eval, bad = 0, [{"kernel": "*", "detail": f"kernel validation crashed: {type(e).__name__}: {e}"}]
+            st.kernel_validation = {"evaluations": n_eval, "disagreements": len(bad)}
+            if bad:
+                st.ok = False
+                st.broken.append({"kind": "translator-validation", "kernel": bad[0].get("kernel"),
+                                  "detail": "generated kernel disagrees with the real method (row-projection convention violated?)",
+                                  "examples": bad[:3]})
         bridge_broken = set()
         for k in kernels:
             mod = f"NpsVerif.Gen.Bridge.{k}"
@@ -507,6 +523,7 @@ def _main(prop, pid, tier, seed, replay, t0):
             "theorems": {k: v for k, v in sorted(st.theorems.items())},
             "facets_correspondence_only": list(getattr(prop, "CORRESPONDENCE_ONLY", [])),
             "kernels_regenerated": list(getattr(prop, "KERNELS", ())),
+            "kernel_translation_validated_against_real_methods": getattr(st, "kernel_validation", None),
             "kernels_text_changed_equivalence_reproved": st.kernels_changed,
             "broken_obligations": st.broken,
             "evaluations": len(cases),
